@@ -88,6 +88,13 @@ def advance_part(ck, tier):
                                 if kind == "hmc":
                                     ch.steps = 3
                                 wrap(ch)
+                                # the reported length of the reloaded sampler equals what it stores, before anything else is done with it
+                                if not (kind == "ensemble" and ch.sample is None):
+                                    ns_, np_ = len(ch.get_sample(burn=0)), len(ch.get_probabilities(burn=0))
+                                    if not (ns_ == np_ == ch.chain_length):
+                                        ck.violation("LenAgree right after load: stored samples = stored probabilities = chain_length",
+                                                     {"class": type(ch).__name__, "samples": ns_, "probs": np_, "chain_length": int(ch.chain_length)},
+                                                     site=f"{type(ch).__name__}.load")
                 except Exception as ex:
                     err = repr(ex)
                 ident = {"class": type(ch).__name__, "calls": ["take_step" if m == -1 else f"advance({m})" for m in b["calls"]],
@@ -315,6 +322,10 @@ def pool_part(ck, tier):
                         post = SlowPost(2, delays[k])
                         ch = GibbsChain(posterior=post, start=np.array([0.1 * k, 1.0 - 0.2 * k]), widths=np.array([0.5, 0.4]),
                                         display_progress=display)
+                        if sched != "none":
+                            # limits in force: the bounded / non-negative proposal paths draw from the parameter's own generator too
+                            ch.set_boundaries(0, (-2.0, 3.0))
+                            ch.set_non_negative(1, True)
                         ch.rng = np.random.default_rng(100 + k)
                         for j, p in enumerate(ch.params):
                             p.rng = np.random.default_rng(1000 + 10 * k + j)
@@ -322,9 +333,11 @@ def pool_part(ck, tier):
                     return chains
                 n = 23
                 serial = build()
+                np.random.seed(12345)                        # the process-global generator is NOT part of a chain's state
                 with contextlib.redirect_stdout(io.StringIO()):
                     for ch in serial:
                         ch.advance(n)
+                np.random.seed(54321)
                 pooled_in = build()
                 ident = {"pool_size": size, "schedule": sched, "n": n, "display_progress": display}
                 ck.case(("pool", size, sched, display))
@@ -373,6 +386,47 @@ def tempering_part(ck, tier):
                      site="ParallelTempering.advance")
 
 
+def tempering_runfor_part(ck, tier):
+    """ParallelTempering.run_for(minutes, hours): returns only after the budget (hours * 60 + minutes) * 60 s has been used up, and soon after"""
+    import io, contextlib
+    import inference.mcmc.parallel as par
+    from inference.mcmc import GibbsChain
+    from harness.c03 import GaussPost
+    real = par.time
+    for minutes, hours in ((0.05, 0.0), (0.0, 1.0 / 600.0), (0.05, 1.0 / 600.0), (0.02, 1.0 / 300.0)):
+        budget = (hours * 60.0 + minutes) * 60.0
+        clock = {"t": 5000.0, "reads": 0}
+
+        def fake():
+            clock["t"] += 0.25                   # every look at the clock takes a quarter of a second
+            clock["reads"] += 1
+            return clock["t"]
+        ck.case(("pt-runfor", minutes, hours))
+        pt = None
+        try:
+            ch = GibbsChain(posterior=GaussPost(2), start=np.array([0.1, 0.2]), widths=np.array([0.5, 0.5]), display_progress=False)
+            with contextlib.redirect_stdout(io.StringIO()):
+                pt = par.ParallelTempering([ch])
+                par.time = fake
+                t_begin = clock["t"]
+                pt.run_for(minutes=minutes, hours=hours, swap_interval=2)
+                elapsed = clock["t"] - t_begin
+        except Exception as ex:
+            ck.violation("ParallelTempering.run_for raised", {"minutes": minutes, "hours": hours, "error": repr(ex)[:200]}, site="ParallelTempering.run_for")
+            continue
+        finally:
+            par.time = real
+            if pt is not None:
+                try:
+                    with contextlib.redirect_stdout(io.StringIO()):
+                        pt.shutdown()
+                except Exception:
+                    pass
+        if not (budget <= elapsed <= budget + 3.0):
+            ck.violation("a timed tempering run returns only after its budget (hours * 60 + minutes) * 60 s is used up, and then stops",
+                         {"minutes": minutes, "hours": hours, "budget_s": budget, "elapsed_on_the_simulated_clock_s": elapsed}, site="ParallelTempering.run_for")
+
+
 def run(tier):
     ck = Check("C15", tier)
     ck.rule = ("one case per (sampler class, TLC call sequence, display flag), per (budget, cost schedule, chain, display flag) timed run, "
@@ -394,6 +448,7 @@ def run(tier):
     runfor_part(ck, tier)
     pool_part(ck, tier)
     tempering_part(ck, tier)
+    tempering_runfor_part(ck, tier)
     from harness import repotests
     repotests.run_part(ck, "C15")          # traces of the repository's own MCMC tests, judged by TestRunTrace.tla
     return ck.finish()
